@@ -27,13 +27,14 @@ prop(
     "N, pos, n (all finite operation sequences by induction); for DCD the two C functions every seek goes through: dcd_rewind (position 0, frame count untouched) "
     "and skip_dcdstep (skips exactly one frame for every flag combination). The cursor layer of the text readers xyz / lammpstrj / mdcrd (read(n), read(), stride 2, "
     "absolute and relative seek forwards and backwards, tell, xyz len) is proved over the contract of their one-frame parser _read (returns frame p and advances, or raises _EOF and "
-    "changes nothing): loops cut by invariants, trip counts taken from the real iterables. The Cython file classes themselves (xtc/trr/dcd/dtr), the one-frame text parsers and the "
+    "changes nothing): loops cut by invariants, trip counts taken from the real iterables; the one-frame parsers of xyz and lammpstrj satisfy that contract on a line stream with symbolic numbers "
+    "(complete / end of file / truncated frame; atoms stored by id; cell = hi - lo). The Cython file classes themselves (xtc/trr/dcd/dtr), the fixed-width mdcrd parser and the "
     "arc reader are covered only by the bounded check (all op sequences up to length 3/4), which is labelled bounded in evidence.",
     level_note="Trusted: the VC generator and its models of numpy slicing, PyTables/netCDF4 nodes, text-file line readers; reals/ints mathematical; Cython/C readers not proved.",
     trusted=["numpy.basic-slicing", "mdtraj.utils.in_units_of"],
     assumptions=[
         "PyTables / netCDF4 variables index like numpy arrays along the frame axis; len(node) is the number of stored frames",
-        "the one-frame text parsers (_read of xyz/lammpstrj/mdcrd) and the C readers (read_next_timestep, read_xtc) deliver frames sequentially and signal EOF as their assumed contracts state",
+        "the one-frame mdcrd parser (_read) and the C readers (read_next_timestep, read_xtc) deliver frames sequentially and signal EOF as their assumed contracts state",
     ],
     explanation="Representation invariant of every file class (position field == abstract cursor position, 0<=pos<=N) is shown "
     "established/preserved by read/seek/tell/len for symbolic N, pos, n: covers every finite operation sequence by induction. "
@@ -298,8 +299,8 @@ _TEXTS = {
             "atom_indices / topology, joined in order, caller's topology left unmodified); the load_<format> glue (frame=i: seek(i) then one frame); read_as_traj of the "
             "pure-Python file classes (delegates partial loading to read once, restricts the topology iff atom_indices, frame k of a reader without stored times is "
             "file frame position+k*stride); read(n_frames, stride, atom_indices) of the text readers xyz / lammpstrj / mdcrd over the contract of their one-frame parser "
-            "(frames position+j*stride in order, count, rows of atom_indices, new position); skip_dcdstep skips exactly one frame of the DCD format for every flag "
-            "combination. Bounded only: the Cython/C readers (xtc, trr, dcd, dtr, binpos), the one-frame text parsers themselves."),
+            "(frames position+j*stride in order, count, rows of atom_indices, new position), and the xyz / lammpstrj one-frame parsers themselves on a line stream with symbolic numbers; skip_dcdstep skips exactly one frame of the DCD format for every flag "
+            "combination. Bounded only: the Cython/C readers (xtc, trr, dcd, dtr, binpos), the fixed-width mdcrd parser."),
     "C04": (_T_PY, "Deductive: the real Topology/Chain/Residue/Atom/Bond code on a fixed shape (2 chains, 3 residues, 5 atoms, 4 typed bonds) with symbolic "
             "resSeq/serial: copy/__copy__/__deepcopy__, subset for all 31 subsets, join, in-place edits, ==/hash: abstract view equality, well-formedness, bond "
             "endpoints are own atoms, independence of the copy; the HDF5 topology setter/getter pair returns what its schema holds for every resSeq value; the DataFrame carrier "
